@@ -212,13 +212,27 @@ Proof.
     rewrite Eq, Er. rewrite IH; [reflexivity|lia|exact HF].
 Qed.
 
+Lemma byte_bits_sum (a : N) : a < 256 ->
+  a = 128 * (a / 128 mod 2) + 64 * (a / 64 mod 2) + 32 * (a / 32 mod 2) + 16 * (a / 16 mod 2)
+      + 8 * (a / 8 mod 2) + 4 * (a / 4 mod 2) + 2 * (a / 2 mod 2) + a mod 2.
+Proof.
+  intros Ha.
+  assert (Hall : forallb (fun x => x =? 128 * (x / 128 mod 2) + 64 * (x / 64 mod 2)
+      + 32 * (x / 32 mod 2) + 16 * (x / 16 mod 2) + 8 * (x / 8 mod 2) + 4 * (x / 4 mod 2)
+      + 2 * (x / 2 mod 2) + x mod 2) (map N.of_nat (seq 0 256)) = true)
+    by (vm_compute; reflexivity).
+  rewrite forallb_forall in Hall. apply N.eqb_eq. apply Hall.
+  apply in_map_iff. exists (N.to_nat a). split; [lia|]. apply in_seq. lia.
+Qed.
+
 Lemma byte_bits (a : N) : a < 256 ->
   exists b7 b6 b5 b4 b3 b2 b1 b0,
     bits8 a = [b7; b6; b5; b4; b3; b2; b1; b0] /\
     a = 128 * b7 + 64 * b6 + 32 * b5 + 16 * b4 + 8 * b3 + 4 * b2 + 2 * b1 + b0 /\
     b7 < 2 /\ b6 < 2 /\ b5 < 2 /\ b4 < 2 /\ b3 < 2 /\ b2 < 2 /\ b1 < 2 /\ b0 < 2.
 Proof.
-  intros Ha. do 8 eexists. split; [reflexivity|]. lia.
+  intros Ha. do 8 eexists. split; [reflexivity|]. split; [apply byte_bits_sum; exact Ha|].
+  repeat split; apply N.mod_lt; discriminate.
 Qed.
 
 (* the 40 bits of five bytes, cut into eight quintets, are the base-32 digits
